@@ -240,6 +240,10 @@ def pool_families():
     out.append(make('Dblock_Dblock_Dc_p3', 3, 3, 2, [D(1, block=1), D(2, block=2)], [D(3)]))
     # ... also after an earlier job on an unrelated object has panicked on a pool thread (the pool replaces the thread it lost)
     out.append(make('panic_then_block_p2', 3, 2, 1, [D(3, panic=True), S(3), D(1, block=1), D(2)]))
+    # the maximum is lowered (it stays above the number of blocked objects) and the surplus is despawned while one of the pool threads is
+    # blocked in a job for ever: scheduling on the other objects goes on
+    out.append(make('lower_blocked_surplus_p3', 3, 3, 1, [D(1), D(2), D(3, block=1), BARRIER(), SETMAX(2), BARRIER(), DESPAWN()], [BARRIER(), BARRIER(), D(2), D(1), D(2)], extra_pool=2))
+    out.append(make('lower_blocked_surplus_p2', 2, 2, 1, [D(1), D(2, block=1), BARRIER(), SETMAX(1), BARRIER(), DESPAWN()], [BARRIER(), BARRIER(), D(1), D(1)], extra_pool=2))
     return out
 
 
@@ -317,6 +321,10 @@ def suspend_families(pools=(0, 1)):
         # a sync caller runs the suspension (the queue waits for its thread to be unparked) while a queue waker retained from an earlier
         # future operation is woken again
         out.append(make('FD_SUsync_SPUR_D_RS_p%d' % p, 1, p, 1, [S(1)], [FD(1, aw=[1], then='detach'), FIRE(1), SU(1, then='await', label='s'), SPUR(1), D(1), RS('s'), S(1)]))
+        # a thread waker retained from an earlier synchronous drain is woken again while the queue is suspended on a pool thread (or on
+        # the awaiting task); another thread's sync arrives during the suspension
+        out.append(make('staleWT_SU_S_p%d' % p, 1, p, 1, [FD(1, aw=[1], then='detach'), S(1), BARRIER(), SU(1, label='s'), AW('s'), D(1), SPUR(1), BARRIER(), RS('s')],
+                        [FIRE(1), BARRIER(), BARRIER(), S(1)]))
     return out
 
 
@@ -419,6 +427,9 @@ def for_property(prop, tier, seed=0):
             fam += three_thread((0, 1, 2))
     elif prop == 'C03':
         fam = core_mix((1,) if quick else (1, 2)) + future_mix((1,) if quick else (1, 2)) + pool_families()[:2]
+        # work accepted by a pipe: every item handed to the input is processed (and, for pipe(), reaches the consumer) without any further call
+        fam += [s for s in pipe_families((1,) if quick else (1, 2)) if s['name'].startswith(('P_depth1_cons_vs_feeder', 'P_depth1_bp', 'P_cons_vs_feeder'))]
+        fam += [s for s in pipe_in_families((1,)) if s['name'].startswith(('PI_sender_vs_D', 'PI_send_send_D_S'))]
         if not quick:
             fam += three_thread((1, 2))
     elif prop == 'C04':
@@ -484,8 +495,8 @@ def for_property(prop, tier, seed=0):
 
 
 QUICK_CAP = 30
-GEN_QUICK = 0
-GEN_THOROUGH = 0
+GEN_QUICK = 2
+GEN_THOROUGH = 12
 
 
 def spread_order(scenarios):
@@ -623,6 +634,10 @@ def gen_scenario(rnd, cls, name):
                     choices += [[PO(label), DR(label)], [PO(label), AW(label)], [PO(label)]]
                 if k == 'FD':
                     choices.append([WS(label)])
+                if k == 'FS':
+                    # the future of future_sync is always awaited or dropped explicitly (the harness would drop it when its thread ends,
+                    # which is not an operation of the program)
+                    choices = [c for c in choices if c and c[-1]['k'] in ('await', 'dropf')]
                 cl = rnd.choice(choices)
                 if cl and cl[0]['k'] == 'poll' and len(cl) > 1:
                     fires[:] = [(x, c) for x, c in fires if x != g]
